@@ -86,10 +86,12 @@ def r2(ctx: Ctx) -> None:
                         want_dev = {poly_of(("bin", "-", ("sym", "P0"), ("sym", "P"))), poly_of(("bin", "-", ("sym", "P"), ("sym", "P0")))}
                         ok = poly_of(sub(thr_t)) == want_thr and poly_of(sub(dev_t)) in want_dev
                         detail = f"|{poly_of(sub(thr_t))}| <= |{poly_of(sub(dev_t))}|"
-                from ..kit import unknown_series
+                from ..kit import unknown_series, memo_on_self
 
                 if not ok and len(cmpc) == 1 and "activation_count" not in key(cmpc[0][0]) and any(x[0] == "attr" and x[1] == ("sym", "self") and x[2] not in ("trigger_change_rate", "activation_count") for x in subterms(cmpc[0][0])):
                     ctx.unrec(f, f.node, "halt comparator", "the number of halts so far is not read from activation_count but derived from other state of the rule: whether it counts the halts is not decided", detail)
+                elif not ok and memo_on_self(("target_markets", "halted_sessions"), *[c for c, _ in cmpc]) is not None:
+                    ctx.unrec(f, f.node, "halt comparator", f"a price in the comparison is read from self.{memo_on_self(('target_markets', 'halted_sessions'), *[c for c, _ in cmpc])}, a table kept on the rule: whether an entry still equals the market's price at time 0 is not decided", detail)
                 elif not ok and unknown_series(*[c for c, _ in cmpc]):
                     ctx.unrec(f, f.node, "halt comparator", "a price in the comparison is read from something that stands in for the recorded series (not the series itself)", detail)
                 else:
